@@ -333,6 +333,7 @@ pub async fn run_op<C: Config>(engine: &Arc<Engine<C>>, sh: &Arc<Shared>, op: &O
         }
     }
     let mut execs = sh.log.lock().unwrap().clone();
+    if std::env::var("VERIF_TRACE").is_ok() { eprintln!("TRACE {} -> {:?}", op.render(), execs); }
     execs.sort();
     OpOut { vals, execs }
 }
